@@ -48,6 +48,9 @@ for name in sorted(rows):
         "checks_that_stay_quiet": d["not_flagged_by"].split(),
         "harness_errors": d["harness_errors"].split(),
     }
+    nt = os.path.join(dst, "note.txt")
+    if os.path.exists(nt):
+        meta["note"] = open(nt).read().strip()
     json.dump(meta, open(os.path.join(dst, "meta.json"), "w"), indent=1)
     table.append((sid, d["target"], d["suite_with_change"], meta["confirmed_in_scratch_copy"]["demo_passes_without_change"],
                   meta["confirmed_in_scratch_copy"]["demo_fails_with_change"], d["caught_by"], d["harness_errors"]))
@@ -59,6 +62,7 @@ with open(os.path.join(out, "RESULTS.md"), "w") as f:
     for r in table:
         f.write("| %s | %s | %s | %s | %s | %s | %s |\n" % r)
     caught = sum(1 for r in table if r[1] in r[5].split())
+    f.write("\nNot every check was run against every change (target + C01 C03 C05 C08 C12 for histsim targets; C17 + C07; C18): 'checks that alarm' lists\nthose of the checks run that alarmed; meta.json of each change also lists the ones that were run and stayed quiet.\n")
     f.write("\n%d of %d seeded changes are caught by the check of the property they were written to break; %d by at least one check.\n"
             % (caught, len(table), sum(1 for r in table if r[5].strip())))
 print("recorded", len(table))
